@@ -21,7 +21,8 @@ All keys are built with mmap_dict.mmap_key so that the collector can parse them.
 Thorough tier: forked writers run a long seeded history and are SIGKILLed at random instants; the same three observations and
 the prefix-state oracle are applied to what they left behind.
 
-Signatures: C11:zero-length-file (F11: the file exists but has length 0 and the readers raise struct.error), C11:cut-unreadable,
+Signatures: C11:zero-length-file (F11, repaired in /repo — an ordinary failure class now: the file exists but has length 0 and the
+readers raise struct.error), C11:cut-unreadable,
 C11:collect-raises, C11:healthy-sample-missing, C11:reopen-raises, C11:reopen-not-a-prefix-state, C11:reopen-write-lost,
 C11:not-a-prefix-state, C11:unwritten-key, C11:unwritten-value, C11:all-zero-file (the sized but still all-zero file must read as
 empty and reopen with used = 8), C11:writer-raises (a plain history raised while being recorded).
